@@ -203,13 +203,10 @@ pub fn def(ctx: &Ctx) -> PropertyDef {
     }
     for p in ilv_programs() {
         let three = p.threads.len() >= 3;
-        scenarios.push(program_scenario(p, ilv_oracle(), move |_c| IlvCfg {
-            bounds: if quick { if three { vec![0, 1] } else { vec![0, 1, 2] } } else if three { vec![0, 1, 2] } else { vec![0, 1, 2, 3] },
-            workers,
-            split_depth: 6,
-            time_cap_s: Some(if quick { 6.0 } else { 300.0 }),
-            max_executions: None,
-        }));
+        scenarios.push({
+                let nthreads = p.threads.len();
+                program_scenario(p, ilv_oracle(), move |c| crate::harness::ilv::tier_cfg(c, nthreads))
+            });
     }
     let mut assumptions = COMMON_ASSUMPTIONS.to_vec();
     assumptions.push("total demanded weight always fits (W = 1000..10000); a read is required to return the value only if the clock at the end of the read is still before the deadline computed from the clock at the write's invocation");
